@@ -1,5 +1,7 @@
 import IsoMdl.Model.Util
 import IsoMdl.Generated.Leaf
+import IsoMdl.Model.SessionTypes
+import IsoMdl.Model.StateCodec
 /-
 Model of the session layer shared by C06, C07, C13, C14:
   * `definitions::session::{encrypt,decrypt}` counter side effects (the IV itself is the
@@ -15,44 +17,6 @@ assumption (`Crypto.Ideal` in DESIGN.md); everything else is the library's own b
 -/
 namespace IsoMdl.Session
 open IsoMdl
-
-/-- plaintext kinds, as far as the receiver's reaction depends on them -/
-inductive Payload where
-  | request              -- a valid DeviceRequest
-  | notCbor              -- decrypts, but the plaintext is not CBOR            (status 11)
-  | notRequest           -- decrypts to CBOR that is not a DeviceRequest      (status 12)
-  | response (status : Nat) (signed : List (Nat × Nat))   -- a DeviceResponse: (doc id, signature id)
-  deriving DecidableEq, Repr
-
-inductive Msg where
-  | garbage                          -- not decodable as SessionData
-  | noData                           -- SessionData without `data`
-  | ct (fromReader : Bool) (sess : Nat) (n : Nat) (p : Payload) (tampered : Bool)
-  deriving DecidableEq, Repr
-
-inductive DevState where
-  | awaiting
-  | signing (prepared : List Nat) (signed : List (Nat × Nat)) (status : Nat)
-  | ready (m : Msg)
-  deriving DecidableEq, Repr
-
-structure Device where
-  sess : Nat
-  encCtr : UInt32      -- device_message_counter
-  decCtr : UInt32      -- reader_message_counter
-  st : DevState
-  deriving DecidableEq, Repr
-
-structure Reader where
-  sess : Nat
-  encCtr : UInt32      -- reader_message_counter
-  decCtr : UInt32      -- device_message_counter
-  deriving DecidableEq, Repr
-
-/-- what `handle_request` / `handle_response` report -/
-inductive Outcome where
-  | parsingError | decryptionError | accepted (p : Payload) | statusOnly
-  deriving DecidableEq, Repr
 
 /-- the counter value `get_initialization_vector` leaves behind = the one inside the IV -/
 def bump (c : UInt32) : UInt32 := (Generated.getInitializationVector c true).1
@@ -186,8 +150,15 @@ def World.step (w : World) : Op → World
   | .responseReady => w
   | .retrieve => { w with dev := (w.dev.retrieve).1 }
   | .handleResponse m => { w with rdr := (w.rdr.handleResponse m).1 }
-  | .restoreDevice => w
-  | .restoreReader => w
+  -- stringify followed by parse of the role's object (serde layer of Model/StateCodec.lean; the
+  -- base64 and CBOR byte layers have their own round-trip theorems).  `restore_device_some` /
+  -- `restore_reader_some` (Lemmas/Session.lean) prove the `none` branches dead.
+  | .restoreDevice => match StateCodec.devOfCbor (StateCodec.devToCbor w.dev) with
+    | some d => { w with dev := d }
+    | none => w
+  | .restoreReader => match StateCodec.rdrOfCbor (StateCodec.rdrToCbor w.rdr) with
+    | some r => { w with rdr := r }
+    | none => w
 
 def World.run (w : World) (ops : List Op) : World := ops.foldl World.step w
 
